@@ -460,3 +460,46 @@ Proof.
   intros Hne. destruct l as [|h r]; [contradiction|].
   apply mergable_dup_cont. destruct Hwf as [Hne' _]. now inversion Hne'.
 Qed.
+
+
+(* ---------------------------------------------------------------------------------------------
+   more about clip: a range that begins with a stretch nothing covers; where the spans of a clip come from
+   --------------------------------------------------------------------------------------------- *)
+Lemma clip_span_gap_prefix a t b s :
+  a <= t -> sstart s < send s -> clip_span a t s = [] -> clip_span a b s = clip_span t b s.
+Proof.
+  intros Hat Hs. unfold clip_span.
+  destruct (Z.max (sstart s) a <? Z.min (send s) t) eqn:E1; [discriminate|]. intros _.
+  destruct (Z.max (sstart s) a <? Z.min (send s) b) eqn:E2;
+    destruct (Z.max (sstart s) t <? Z.min (send s) b) eqn:E3; try reflexivity; try (exfalso; lia).
+  f_equal. f_equal; lia.
+Qed.
+
+Lemma clip_gap_prefix a t b l :
+  a <= t -> wfa l -> clip a t l = [] -> clip a b l = clip t b l.
+Proof.
+  intros Hat [Hne _]. induction l as [|s l IH]; [reflexivity|].
+  inversion Hne as [|? ? Hs Hne']; subst. rewrite !clip_cons. intros H.
+  apply app_eq_nil in H as [H1 H2]. rewrite (clip_span_gap_prefix a t b s Hat Hs H1), (IH Hne' H2). reflexivity.
+Qed.
+
+Lemma clip_in a b l s :
+  In s (clip a b l) ->
+  exists s0, In s0 l /\ srun s = srun s0 /\ sstart s = Z.max (sstart s0) a /\ send s = Z.min (send s0) b /\
+             sstart s < send s.
+Proof.
+  intros Hin. apply in_flat_map in Hin as (s0 & Hin0 & Hs). exists s0. split; [exact Hin0|].
+  unfold clip_span in Hs. destruct (_ <? _) eqn:E; [|destruct Hs]. destruct Hs as [<-|[]].
+  cbn [srun sstart send]. repeat split; lia.
+Qed.
+
+(* two entries of a dict with pairwise different keys that have the same key are the same entry *)
+Lemma nodup_keys_unique l s1 s2 :
+  NoDup (keys l) -> In s1 l -> In s2 l -> srun s1 = srun s2 -> s1 = s2.
+Proof.
+  induction l as [|h l IH]; intros Hnd H1 H2 Hk; [destruct H1|].
+  cbn [keys map] in Hnd. inversion Hnd as [|? ? Hn Hnd']; subst.
+  destruct H1 as [->|H1], H2 as [->|H2]; auto.
+  - exfalso. apply Hn. rewrite Hk. apply in_map, H2.
+  - exfalso. apply Hn. rewrite <- Hk. apply in_map, H1.
+Qed.
